@@ -6,10 +6,12 @@ package rt
 import (
 	"bytes"
 	"fmt"
-	"math/big"
 	"hash/fnv"
+	"math/big"
 	"reflect"
+	"runtime"
 	"sort"
+	"sync"
 	"unsafe"
 )
 
@@ -226,6 +228,27 @@ type Sched struct {
 	stride    map[string]int // per variable: only every k-th access is a scheduling point
 	counter   map[string]int
 	tracking  bool
+	// goroutines the LIBRARY starts are not harness threads: their accesses are recorded (attributed to
+	// the running thread) but are never scheduling points. They are recognised by goroutine id, looked
+	// up only while more goroutines exist than the harness itself started.
+	mu      sync.Mutex
+	gids    map[int64]bool
+	baseG   int
+	Foreign int64 // accesses made by goroutines the library started
+}
+
+// curGoid parses the current goroutine's id from its stack header ("goroutine 123 [running]:").
+func curGoid() int64 {
+	var buf [40]byte
+	n := runtime.Stack(buf[:], false)
+	var id int64
+	for _, ch := range buf[10:n] {
+		if ch < '0' || ch > '9' {
+			break
+		}
+		id = id*10 + int64(ch-'0')
+	}
+	return id
 }
 
 var sched *Sched
@@ -288,6 +311,34 @@ func (s *Sched) point(site int, v string, w bool) {
 }
 
 func (s *Sched) access(site int, v string, w bool) {
+	foreign := false
+	if s.baseG > 0 && runtime.NumGoroutine() > s.baseG {
+		id := curGoid()
+		s.mu.Lock()
+		foreign = !s.gids[id]
+		s.mu.Unlock()
+	}
+	s.mu.Lock()
+	if foreign {
+		s.Foreign++
+	}
+	s.record(site, v, w)
+	s.mu.Unlock()
+	if foreign {
+		return
+	}
+	if s.pointVars != nil && s.pointVars[v] {
+		if st := s.stride[v]; st > 1 {
+			s.counter[v]++
+			if s.counter[v]%st != 1 {
+				return
+			}
+		}
+		s.point(site, v, w)
+	}
+}
+
+func (s *Sched) record(site int, v string, w bool) {
 	t := s.cur
 	a := s.Acc[t][v]
 	if a == nil {
@@ -314,15 +365,6 @@ func (s *Sched) access(site int, v string, w bool) {
 			s.lastHash[v] = h
 		}
 	}
-	if s.pointVars != nil && s.pointVars[v] {
-		if st := s.stride[v]; st > 1 {
-			s.counter[v]++
-			if s.counter[v]%st != 1 {
-				return
-			}
-		}
-		s.point(site, v, w)
-	}
 }
 
 // Access is called by instrumented code before a statement that reads a package-level variable.
@@ -347,8 +389,15 @@ func (s *Sched) Run(bodies [][]func()) {
 	for _, g := range globals {
 		s.lastHash[g.name] = g.hash()
 	}
+	s.gids = map[int64]bool{}
+	var reg sync.WaitGroup
+	reg.Add(len(bodies))
 	for i := range bodies {
 		go func(i int) {
+			s.mu.Lock()
+			s.gids[curGoid()] = true
+			s.mu.Unlock()
+			reg.Done()
 			<-s.resume[i]
 			for ci, call := range bodies[i] {
 				if ci > 0 {
@@ -386,6 +435,8 @@ func (s *Sched) Run(bodies [][]func()) {
 			s.resume[s.cur] <- true
 		}(i)
 	}
+	reg.Wait()
+	s.baseG = runtime.NumGoroutine()
 	s.active = true
 	s.cur = 0
 	// first point: which thread starts
